@@ -1,4 +1,6 @@
 // Public-API operations (database / crate / track), observation and raw dumps.
+#include <atomic>
+#include <thread>
 #include <sqlite3.h>
 
 #include <algorithm>
@@ -1439,6 +1441,66 @@ bool dispatch_api(State& st, const std::string& op, const json& a, json& ret)
             out.push_back(json::array({h.size, dhex(h.samples_per_entry), o.size, dhex(o.samples_per_entry)}));
         }
         ret = out;
+        return true;
+    }
+    if (op == "mt_extents" || op == "mt_normalize")
+    {
+        // The same pure functions called from several threads at once, each thread with its own argument list (lists
+        // deliberately differ, e.g. 44.1 kHz tracks on one thread and 48 kHz tracks on another).  Results come back per thread;
+        // under the tsan build any unsynchronised shared state inside the functions is reported by ThreadSanitizer.
+        const auto& lists = a.at("lists");
+        size_t nt = lists.size();
+        std::vector<json> outs(nt);
+        int rounds = a.value("rounds", 1);
+        std::atomic<int> ready{0};
+        std::vector<std::thread> threads;
+        bool ext = op == "mt_extents";
+        for (size_t t = 0; t < nt; ++t)
+        {
+            threads.emplace_back([&, t] {
+                // parse first, then wait for the others, so that the calls overlap
+                std::vector<std::pair<unsigned long long, double>> pts;
+                std::vector<std::pair<std::vector<dj::beatgrid_marker>, int64_t>> grids;
+                if (ext)
+                    for (auto& it : lists[t]) pts.emplace_back(it[0].get<unsigned long long>(), jd(it[1]));
+                else
+                    for (auto& it : lists[t]) grids.emplace_back(beatgrid_from_json(it.at("grid")), it.at("count").get<int64_t>());
+                ++ready;
+                while (ready.load() < (int)nt) std::this_thread::yield();
+                json out = json::array();
+                for (int r = 0; r < rounds; ++r)
+                {
+                    bool keep = r == rounds - 1;
+                    if (ext)
+                        for (auto& [count, rate] : pts)
+                        {
+                            auto h = eng::calculate_high_resolution_waveform_extents(count, rate);
+                            auto o = eng::calculate_overview_waveform_extents(count, rate);
+                            if (keep) out.push_back(json::array({h.size, dhex(h.samples_per_entry), o.size, dhex(o.samples_per_entry)}));
+                        }
+                    else
+                        for (auto& [g0, count] : grids)
+                        {
+                            try
+                            {
+                                auto g = eng::normalize_beatgrid(g0, count);
+                                if (keep) out.push_back({{"grid", beatgrid_to_json(g)}});
+                            }
+                            catch (const std::exception& e)
+                            {
+                                if (keep)
+                                {
+                                    auto x = exception_to_json(e);
+                                    out.push_back({{"exc", x["type"]}, {"is", x["is"]}});
+                                }
+                            }
+                        }
+                }
+                outs[t] = std::move(out);
+            });
+        }
+        for (auto& th : threads) th.join();
+        ret = json(outs);
         return true;
     }
     if (op == "normalize")
